@@ -1,6 +1,7 @@
 package main
 
 import (
+	"encoding/json"
 	"os"
 	"path/filepath"
 	"strings"
@@ -14,7 +15,7 @@ import (
 type knownFinding struct {
 	Property    string   `json:"property"`
 	Class       string   `json:"class"`
-	Calls       []string `json:"calls,omitempty"`  // every listed "Fn(expr|list)" must occur in the minimised run
+	Calls       []string `json:"calls,omitempty"`  // every listed call, spelled as the JSON array ["Fn","expr",["list",...]], must occur in the minimised run
 	Frames      []string `json:"frames,omitempty"` // data_race: both frames (substring match)
 	Description string   `json:"description"`
 }
@@ -36,8 +37,11 @@ func loadKnown() *knownFile {
 	return &k
 }
 
+// opKey is the JSON array [fn, expr, list]: an unambiguous spelling of a call for
+// known_findings.json.
 func opKey(o proto.Op) string {
-	return o.Fn + "(" + o.Expr + "|" + strings.Join(o.List, ",") + ")"
+	b, _ := json.Marshal([]any{o.Fn, o.Expr, o.List})
+	return string(b)
 }
 
 func (k *knownFile) match(r *proto.Record) *knownFinding {
